@@ -19,7 +19,7 @@ Sources == {"", "irc.example.net", "nick!user@host.example", "nick@host"}
   \cup (IF Thorough THEN {"n!u@2001:db8::1", "N[a]`^!~u-1@h.x", "services."} ELSE {})
 Verbs == {"PRIVMSG", "privmsg", "Notice", "001", "JOIN", "x"}
   \cup (IF Thorough THEN {"PiNg", "433", "nOtIcE"} ELSE {})
-MidSeqs == {<<>>, <<"#chan">>, <<"nick">>, <<"#chan", "a:b">>}
+MidSeqs == {<<>>, <<"#chan">>, <<"nick">>, <<"#chan", "a:b">>, <<"&ops">>}
   \cup (IF Thorough THEN {<<"a", "b", "c">>, <<"&c">>, <<"+x", "!y", "z:">>,
                           <<"1", "2", "3", "4", "5", "6", "7", "8", "9", "10", "11", "12", "13", "14">>} ELSE {})
 Plain == {<<FALSE, "">>, <<TRUE, "">>, <<TRUE, "word">>, <<TRUE, "two words">>, <<TRUE, "has :colon and  spaces ">>, <<TRUE, ":lead">>}
